@@ -322,30 +322,30 @@ func deviations() []encOpts {
 		"AGE-ENCRYPTION.ORG/V1\n", "\nage-encryption.org/v1\n", "\xef\xbb\xbfage-encryption.org/v1\n", "age-encryption.org/v1", "age-encryption.org/v1\n\n",
 		"age-encryption.org/v1\t\n", "age-encryption.org/v1\x00\n", "age-encryption.org/v1.0\n", ""} {
 		in := in
-		dev(fmt.Sprintf("intro=%q", in), func(o *encOpts) { o.intro = in })
+		dev(fmt.Sprintf("intro=%+q", in), func(o *encOpts) { o.intro = in })
 	}
 	for _, p := range []string{"->", "->  ", " -> ", "=> ", "-> -> ", "->\t", "-->", "> "} {
 		p := p
-		dev(fmt.Sprintf("prefix=%q", p), func(o *encOpts) { o.prefix = p })
+		dev(fmt.Sprintf("prefix=%+q", p), func(o *encOpts) { o.prefix = p })
 	}
 	for _, p := range []string{"---", "---  ", " --- ", "----", "-- ", "---\t", "--- --- "} {
 		p := p
-		dev(fmt.Sprintf("footer=%q", p), func(o *encOpts) { o.footer = p })
+		dev(fmt.Sprintf("footer=%+q", p), func(o *encOpts) { o.footer = p })
 	}
 	for _, s := range []string{"  ", "\t", " \t", "\x00", ","} {
 		s := s
-		dev(fmt.Sprintf("argsep=%q", s), func(o *encOpts) { o.argSep = s })
+		dev(fmt.Sprintf("argsep=%+q", s), func(o *encOpts) { o.argSep = s })
 	}
 	for _, s := range []string{" ", "  ", "\t", "\r"} {
 		s := s
-		dev(fmt.Sprintf("argtrail=%q", s), func(o *encOpts) { o.argTrail = s })
+		dev(fmt.Sprintf("argtrail=%+q", s), func(o *encOpts) { o.argTrail = s })
 	}
 	for _, e := range []string{"\r\n", "\r", "\n\n", " \n", "\n\r"} {
 		e := e
-		dev(fmt.Sprintf("eol-all=%q", e), func(o *encOpts) { o.eolArg, o.eolBody, o.eolFooter = e, e, e })
-		dev(fmt.Sprintf("eol-arg=%q", e), func(o *encOpts) { o.eolArg = e })
-		dev(fmt.Sprintf("eol-body=%q", e), func(o *encOpts) { o.eolBody = e })
-		dev(fmt.Sprintf("eol-footer=%q", e), func(o *encOpts) { o.eolFooter = e })
+		dev(fmt.Sprintf("eol-all=%+q", e), func(o *encOpts) { o.eolArg, o.eolBody, o.eolFooter = e, e, e })
+		dev(fmt.Sprintf("eol-arg=%+q", e), func(o *encOpts) { o.eolArg = e })
+		dev(fmt.Sprintf("eol-body=%+q", e), func(o *encOpts) { o.eolBody = e })
+		dev(fmt.Sprintf("eol-footer=%+q", e), func(o *encOpts) { o.eolFooter = e })
 	}
 	for _, w := range []int{0, 4, 48, 60, 63, 65, 68, 76, 128} {
 		w := w
@@ -360,7 +360,7 @@ func deviations() []encOpts {
 	dev("empty-arg", func(o *encOpts) { o.emptyArg = "y" })
 	for _, a := range []string{"\x7f", "a\x80", "\xc3\xa9", "a b", "a\tb", "\x00", "a\rb"} {
 		a := a
-		dev(fmt.Sprintf("bad-arg=%q", a), func(o *encOpts) { o.badArg = a })
+		dev(fmt.Sprintf("bad-arg=%+q", a), func(o *encOpts) { o.badArg = a })
 	}
 	macs := map[string]func([]byte) string{
 		"padded":        func(m []byte) string { return refage.B64Padded(m) },
@@ -467,8 +467,16 @@ func runMutations(o *oracle, seeds []seed, nStacked int) {
 		s := seeds[i]
 		r.Guard("mutate "+s.name, func() {
 			st := newStats("mutation")
+			st.sampling = i == 0
 			f := func(kind string, x []byte) {
-				acc, _ := o.check(st, x, lvBasicAll, 64)
+				acc, m := o.check(st, x, lvBasicAll, 64)
+				if st.sampling && (kind == "bitflip" || kind == "line-suffix") {
+					cls := "mutation " + kind + " of " + s.name + ": rejected"
+					if acc {
+						cls = "mutation " + kind + " of " + s.name + ": accepted and canonical"
+					}
+					st.sample(cls, map[string]any{"input": fmt.Sprintf("%+q", x), "header_bytes": len(m)})
+				}
 				cls := kind
 				if j := strings.IndexAny(cls, "="); j > 0 && strings.HasPrefix(cls, "model") {
 					cls = cls[:j]
